@@ -52,6 +52,23 @@ APut(s, k, v) ==
         s3 == IF Len(s.b2) > s.p /\ Len(s2.b2) > 0 THEN [s2 EXCEPT !.b2 = DropLRU(s2.b2)] ELSE s2
     IN A2([s3 EXCEPT !.t1 = PushMRU(s3.t1, Ent(k, v))], RPut)
 
+\* The other admissible order on a ghost hit (the statement is silent on it, DESIGN 3.3 iii): room is made FIRST, with
+\* the hit key still in its ghost list - a full ghost list then silently discards its LRU entry (possibly the hit key
+\* itself, whose value the caller already holds) - and the hit key is taken out afterwards.  Resident lists, p and the
+\* return value are the same as in APut; only which ghost is silently discarded may differ.
+APutAlt(s, k, v) ==
+  IF Has(s.b1, k) /\ ~Has(s.t1, k) /\ ~Has(s.t2, k) THEN
+    LET d  == IF Len(s.b2) > Len(s.b1) THEN Len(s.b2) \div Len(s.b1) ELSE 1
+        s1 == [s EXCEPT !.p = AMin(Size, s.p + d)]
+        s2 == IF Len(s.t1) + Len(s.t2) >= Size THEN Replace(s1, FALSE) ELSE s1
+    IN A2([s2 EXCEPT !.b1 = Without(s2.b1, k), !.t2 = PushMRU(s2.t2, Ent(k, v))], RUpdate(ValOf(s.b1, k)))
+  ELSE IF Has(s.b2, k) /\ ~Has(s.t1, k) /\ ~Has(s.t2, k) THEN
+    LET d  == IF Len(s.b1) > Len(s.b2) THEN Len(s.b1) \div Len(s.b2) ELSE 1
+        s1 == [s EXCEPT !.p = IF d >= s.p THEN 0 ELSE s.p - d]
+        s2 == IF Len(s.t1) + Len(s.t2) >= Size THEN Replace(s1, TRUE) ELSE s1
+    IN A2([s2 EXCEPT !.b2 = Without(s2.b2, k), !.t2 = PushMRU(s2.t2, Ent(k, v))], RUpdate(ValOf(s.b2, k)))
+  ELSE APut(s, k, v)
+
 AGet(s, k, w) ==
   IF Has(s.t1, k) THEN
     LET old == ValOf(s.t1, k)
